@@ -160,15 +160,17 @@ def gen_module(rng, nm, earlier_mods, size):
     if funcs and rng.random() < 0.6:
         m["generics"].append({"name": rng.choice(OPS[:6] + OPS[7:]), "of": [funcs[0]["name"]], "doc": rng.random() < 0.7, "perm": None})
     # interface blocks with explicit bodies: named generic, unnamed (interface procedures), abstract
+    # round 6: the bodies may use the module's own derived types (host association / `import`) for arguments and results
+    own = [t["name"] for t in m["types"]]
     for _ in range(pick_count(rng, [(0, 5), (1, 3), (2, 1)])):
         form = rng.choice(["named", "unnamed", "unnamed"])
-        bodies = [gen_proc(rng, nm, [], allow_internal=False) for _ in range(rng.randint(1, 2))]
+        bodies = [gen_proc(rng, nm, own, allow_internal=False) for _ in range(rng.randint(1, 2))]
         for b in bodies:
             b["locals"], b["namelist"], b["common"], b["localtype"], b["localiface"] = [], None, None, None, None
         m["ifaces"].append({"form": form, "name": nm.fresh("ifc") if form == "named" else None, "bodies": bodies,
                             "doc": rng.random() < 0.6})
     for _ in range(pick_count(rng, [(0, 5), (1, 3), (2, 1)])):
-        b = gen_proc(rng, nm, [], allow_internal=False)
+        b = gen_proc(rng, nm, own, allow_internal=False)
         b["locals"], b["namelist"], b["common"], b["localtype"], b["localiface"] = [], None, None, None, None
         m["absints"].append(b)
     for _ in range(pick_count(rng, [(0, 6), (1, 2)])):
@@ -179,7 +181,7 @@ def gen_module(rng, nm, earlier_mods, size):
                          "doc": rng.random() < 0.7}
     # separate module procedures (interface in the module, body in a submodule)
     for _ in range(pick_count(rng, [(0, 5), (1, 3), (2, 2)])):
-        b = gen_proc(rng, nm, [], allow_internal=False)
+        b = gen_proc(rng, nm, own, allow_internal=False)
         b["locals"], b["namelist"], b["common"], b["localtype"], b["localiface"] = [], None, None, None, None
         b["implform"] = rng.choice(["procedure", "full"])
         m["modprocs"].append(b)
